@@ -31,7 +31,7 @@ def run(ck):
     ck.stream("spans", description="slicegen programs x layouts with tabs, no-break spaces, multi-byte characters in comments and string arguments, CRLF, blank lines, removed preprocessor blocks "
               "before/between tokens, separators inside scoped identifiers; the printer records where it put every token. Oracle: every location in the AST dump (identifiers, type references, attributes, tags, "
               "integers, definitions, members, parameters, return values, enumerators, operations) equals first-token-start..last-token-end of that element; correspondence: the model lexer+parser gives the same locations; "
-              "every location lies inside its file with start <= end, counted from 1.")
+              "every location lies inside its file with start <= end, counted from 1; the parts of every doc comment lie within the text of that comment's lines (also with CRLF endings).")
     for c in cases:
         text = sc.case_text(c)
         ck.count("spans", text, kind=c.style)
@@ -40,6 +40,17 @@ def run(ck):
             continue
         if c.diags:
             ck.violation("spans", "valid-program-diagnosed", text, "no diagnostics", "%s %s" % (c.diags[0]["code"], c.diags[0]["msg"]), kind="correspondence")
+            continue
+        # the parts of a doc comment lie within that comment's lines (its text: not on the carriage return of a CRLF ending)
+        from . import c16
+        docbad = None
+        for f, raw in zip(c.files, c.rawfiles or []):
+            defects = c16.doc_location_defects(raw, f["text"], own_lines=False)
+            if defects:
+                docbad = (f["text"], defects[0])
+                break
+        if docbad:
+            ck.violation("spans", "doc-comment-part-outside-its-lines", docbad[0], "every part of a doc comment within the text of that comment's lines", docbad[1], signature={"crlf": "\r\n" in docbad[0]})
             continue
         for f, d in zip(c.files, c.dump):
             lines = f["text"].split("\n")
